@@ -209,6 +209,72 @@ def order_case(link, n, slow):
     return msgs, list(link.app), overlaps
 
 
+def arrival_at_empty_check_case(link):
+    """A block is queued for dispatch exactly when the dispatcher thread has just found its queue empty (forced: the queue object's
+    qsize() puts it there and still answers 0).  It must be delivered like any other - not stay behind until the next one wakes the thread."""
+    import queue as _queue
+    disp = link.proto._thread
+    del link.app[:]
+    first, late, third = (0x7001, 5001), (0x7002, 5002), (0x7003, 5003)
+    late_block = gemrig.HsmsBlock.decode(link.reply_frame(*late))
+    state = {"armed": False, "injected": False}
+
+    class Hooked(_queue.Queue):
+        def qsize(self):
+            n = super().qsize()
+            if n == 0 and state["armed"]:
+                state["armed"] = False
+                state["injected"] = True
+                disp.queue_block(link.proto, late_block)
+                return 0
+            return n
+
+    old = disp._dispatch_queue
+    hooked = Hooked()
+    disp._dispatch_queue = hooked
+    try:
+        state["armed"] = True
+        link.rig.conn.feed(link.reply_frame(*first))
+        deadline = time.monotonic() + 5
+        while time.monotonic() < deadline and len(link.app) < 2:
+            time.sleep(0.002)
+        delivered_in_time = list(link.app)
+        link.rig.conn.feed(link.reply_frame(*third))      # (a later block would wake the thread: what arrives then shows what was stuck)
+        deadline = time.monotonic() + 5
+        while time.monotonic() < deadline and len(link.app) < 3:
+            time.sleep(0.002)
+        link.rig.settle()
+    finally:
+        disp._dispatch_queue = old
+    return {"injected": state["injected"], "delivered_before_the_next_block": delivered_in_time, "delivered_in_the_end": list(link.app), "expected_first": [first, late]}
+
+
+def stale_queue_case(link):
+    """A Linktest.req of ours that is never answered (T6 runs out); later a data message arrives that happens to carry the same
+    system bytes: it is an ordinary inbound message and must reach the application."""
+    link.rig.settings.timeouts.t6 = 0.3
+    del link.app[:]
+    n0 = len(link.rig.conn.sent)
+    box = {}
+    th = threading.Thread(target=lambda: box.setdefault("r", link.proto.send_linktest_req()), daemon=True)
+    th.start()
+    th.join(10)
+    sent = b"".join(link.rig.conn.sent[n0:])
+    system = int.from_bytes(sent[10:14], "big") if len(sent) >= 14 and sent[9] == 5 else None
+    obs = {"linktest_returned": not th.is_alive(), "linktest_result": repr(box.get("r")), "system": system}
+    if system is None:
+        return obs
+    msgs = [(system - 1, 6001), (system, 6002), (system + 1, 6003)]
+    link.rig.conn.feed(b"".join(link.reply_frame(s0, m) for s0, m in msgs))
+    deadline = time.monotonic() + 5
+    while time.monotonic() < deadline and len(link.app) < 3:
+        time.sleep(0.002)
+    link.rig.settle()
+    obs["sent"] = msgs
+    obs["delivered"] = list(link.app)
+    return obs
+
+
 def alloc_cases(rnd):
     lits, raw = [], []
     for c0 in [0, 100, 2**32 - 3, 2**32 - 1, rnd.randrange(2**32)]:
@@ -401,6 +467,14 @@ def run(tier, replay=None):
                 link.down()
                 link.up()
             cov["ordering"] = order_stats
+            inj = arrival_at_empty_check_case(link)
+            cov["arrival_at_empty_check"] = inj
+            if inj["injected"] and inj["delivered_before_the_next_block"] != inj["expected_first"]:
+                report.violation({"kind": "counterexample", "what": "a message queued for dispatch at the moment the dispatcher found its queue empty was not handed to the application until a later message arrived", **inj}, True, tag="lostwakeup")
+            stale = stale_queue_case(link)
+            cov["after_unanswered_linktest"] = stale
+            if stale.get("system") is not None and stale.get("delivered") != stale.get("sent"):
+                report.violation({"kind": "counterexample", "what": "an inbound data message carrying the system bytes of an earlier, unanswered Linktest.req was not handed to the application", **stale}, True, tag="stalequeue")
         finally:
             link.rig.stop()
 
